@@ -94,6 +94,13 @@ func c20Make(c c20Case) (func() *c20Val, string) {
 				if m.GetOneOption(dhcpv6.OptionDNSRecursiveNameServer) == nil {
 					m.AddOption(dhcpv6.OptDNS(net.ParseIP("2001:db8::53"), net.ParseIP("2001:db8::53"), net.ParseIP("2001:db8::1")))
 				}
+				// several vendor options of one enterprise (RFC 8415 section 21.17 allows one per enterprise number; a
+				// constructor-built message can hold what a sloppy peer sends)
+				if m.GetOneOption(dhcpv6.OptionVendorOpts) == nil {
+					m.AddOption(&dhcpv6.OptVendorOpts{EnterpriseNumber: 9, VendorOpts: dhcpv6.Options{&dhcpv6.OptionGeneric{OptionCode: 1, OptionData: []byte("a")}}})
+					m.AddOption(&dhcpv6.OptVendorOpts{EnterpriseNumber: 1271, VendorOpts: dhcpv6.Options{&dhcpv6.OptionGeneric{OptionCode: 2, OptionData: []byte("b")}}})
+					m.AddOption(&dhcpv6.OptVendorOpts{EnterpriseNumber: 9, VendorOpts: dhcpv6.Options{&dhcpv6.OptionGeneric{OptionCode: 3, OptionData: []byte("c")}}})
+				}
 			}
 			return &c20Val{reflect.ValueOf(d), d.ToBytes}
 		}, "v6-built"
@@ -113,6 +120,11 @@ func decodeRefV4(b []byte) (*refv4Packet, bool) {
 
 // c20Standalone builds standalone option values through the exported constructors.
 func c20Standalone(sel int, seed []byte) func() *c20Val {
+	table := c20Table(seed)
+	return table[((sel%len(table))+len(table))%len(table)]
+}
+
+func c20Table(seed []byte) []func() *c20Val {
 	bs := func(i, n int) []byte {
 		out := make([]byte, n)
 		for k := range out {
@@ -207,8 +219,38 @@ func c20Standalone(sel int, seed []byte) func() *c20Val {
 		v4(func() dhcpv4.Option { return dhcpv4.OptIPv6OnlyPreferred((1<<33 + 3) * time.Second) }),
 		v4(func() dhcpv4.Option { return dhcpv4.OptMaxMessageSize(65535) }),
 		v4(func() dhcpv4.Option { return dhcpv4.OptHostName(string(bs(0, 300))) }),
+		// lists holding the empty / zero element, first, in the middle and last (a constructor takes what it is given;
+		// an encoder may skip or reject such an element, but neither encoding nor printing may rewrite the caller's list)
+		v4(func() dhcpv4.Option { return dhcpv4.OptRFC3004UserClass([]string{"", "iPXE", string(bs(0, 3)), ""}) }),
+		v4(func() dhcpv4.Option { return dhcpv4.OptRFC3004UserClass([]string{"iPXE", "", "x86", string(bs(0, 2))}) }),
+		v4(func() dhcpv4.Option { return dhcpv4.OptUserClass("") }),
+		v4(func() dhcpv4.Option {
+			return dhcpv4.OptVIVC(dhcpv4.VIVCIdentifier{EntID: 0, Data: nil}, dhcpv4.VIVCIdentifier{EntID: 9, Data: bs(0, 4)}, dhcpv4.VIVCIdentifier{EntID: 9, Data: []byte{}})
+		}),
+		v4(func() dhcpv4.Option { return dhcpv4.OptDNS(net.IP{0, 0, 0, 0}, net.IP(bs(1, 4)), nil, net.IP(bs(2, 4))) }),
+		v4(func() dhcpv4.Option { return dhcpv4.OptRouter() }),
+		v4(func() dhcpv4.Option { return dhcpv4.OptParameterRequestList() }),
+		v4(func() dhcpv4.Option {
+			return dhcpv4.OptDomainSearch(&rfc1035label.Labels{Labels: []string{"", "b.example.org", "", "a.example.org"}})
+		}),
+		v4(func() dhcpv4.Option {
+			return dhcpv4.OptRelayAgentInfo(dhcpv4.OptGeneric(dhcpv4.GenericOptionCode(1), nil), dhcpv4.OptGeneric(dhcpv4.GenericOptionCode(2), bs(0, 3)), dhcpv4.OptGeneric(dhcpv4.GenericOptionCode(0), []byte{}))
+		}),
+		v6(func() dhcpv6.Option { return dhcpv6.OptBootFileParam("", "a", "", string(bs(0, 3))) }),
+		v6(func() dhcpv6.Option { return &dhcpv6.OptUserClass{UserClasses: [][]byte{nil, bs(2, 3), {}, bs(0, 1)}} }),
+		v6(func() dhcpv6.Option {
+			return &dhcpv6.OptVendorClass{EnterpriseNumber: 0, Data: [][]byte{{}, bs(0, 3), nil}}
+		}),
+		v6(func() dhcpv6.Option { return dhcpv6.OptRequestedOption() }),
+		v6(func() dhcpv6.Option { return dhcpv6.OptRequestedOption(0, 0, dhcpv6.OptionCode(23), 0) }),
+		v6(func() dhcpv6.Option {
+			return dhcpv6.OptDomainSearchList(&rfc1035label.Labels{Labels: []string{"", "b.example.org", ""}})
+		}),
+		v6(func() dhcpv6.Option {
+			return &dhcpv6.OptVendorOpts{EnterpriseNumber: 9, VendorOpts: dhcpv6.Options{&dhcpv6.OptionGeneric{OptionCode: 1}, &dhcpv6.OptionGeneric{OptionCode: 1, OptionData: bs(0, 2)}, &dhcpv6.OptionGeneric{OptionCode: 0, OptionData: []byte{}}}}
+		}),
 	}
-	return table[((sel%len(table))+len(table))%len(table)]
+	return table
 }
 
 var c20 = newChk("C20", "read-only",
@@ -219,8 +261,8 @@ var c20 = newChk("C20", "read-only",
 			return nil
 		}
 		// discovery on a scratch copy
-		w := &walker{seen: map[string]bool{}, max: 250}
 		scratch := mk()
+		w := &walker{seen: map[string]bool{}, max: 300, harvest: harvestValues(scratch.root)}
 		w.visitP("x", nil, scratch.root, 0)
 		var paths []opath
 		for _, p := range w.paths {
@@ -293,7 +335,7 @@ var c20 = newChk("C20", "read-only",
 
 func genC20() *rapid.Generator[c20Case] {
 	return rapid.Custom(func(t *rapid.T) c20Case {
-		c := c20Case{Kind: rapid.IntRange(0, 4).Draw(t, "kind"), Opt: rapid.IntRange(0, 40).Draw(t, "opt")}
+		c := c20Case{Kind: rapid.IntRange(0, 4).Draw(t, "kind"), Opt: rapid.IntRange(0, 60).Draw(t, "opt")}
 		switch c.Kind {
 		case 0, 1:
 			c.B = gen.V4Wire(6, 300, 0).Draw(t, "v4")
@@ -314,7 +356,7 @@ func TestC20_Rapid(t *testing.T) { c20.rapidCheck(t, genC20()) }
 
 // TestC20_Standalone runs every standalone constructor value with every single path as the whole program.
 func TestC20_Standalone(t *testing.T) {
-	for sel := 0; sel < 33; sel++ {
+	for sel := range c20Table([]byte{1}) {
 		for prog := 0; prog < 12; prog++ {
 			c20.one(t, c20Case{Kind: 4, Opt: sel, B: []byte{9, 3, 7, 1, 250, 4, 66}, Prog: []int{prog, prog + 1}})
 		}
